@@ -560,6 +560,14 @@ func (a *Agent) gatherCandidatesLocalUDPMux(ctx context.Context) error { //nolin
 		}
 
 		for _, candidateIP := range candidateIPs {
+			// Like every other candidate, a muxed one must belong to an enabled network type.
+			if ipAddr, validIP := netip.AddrFromSlice(candidateIP); validIP {
+				if nt, ntErr := determineNetworkType(udp, ipAddr); ntErr == nil &&
+					!slices.Contains(configuredNetworkTypes(a.networkTypes), nt) {
+					continue
+				}
+			}
+
 			var address string
 			var isLocationTracked bool
 			if a.mDNSMode == MulticastDNSModeQueryAndGather {
@@ -594,6 +602,10 @@ func (a *Agent) gatherCandidatesLocalUDPMux(ctx context.Context) error { //nolin
 			}
 
 			c, err := NewCandidateHost(&hostConfig)
+			if ipAddr, validIP := netip.AddrFromSlice(candidateIP); err == nil && validIP &&
+				a.mDNSMode == MulticastDNSModeQueryAndGather {
+				err = c.setIPAddr(ipAddr.Unmap()) // the mDNS name says nothing about the address family
+			}
 			if err != nil {
 				closeConnAndLog(conn, a.log, "failed to create host mux candidate: %s %d: %v", candidateIP, udpAddr.Port, err)
 
